@@ -456,3 +456,4 @@ pub(crate) fn c13_wrap_load_arc() {
     vcover!("c13_wrap_load_arc_end");
 }
 
+
